@@ -94,6 +94,7 @@ func expand(sw []int) []int {
 func runSchedule(names []string, sw []int) string {
 	s := &mc.Sched{}
 	mc.SchedHook = s.Point
+	mc.SchedBlockedHook = s.Blocked
 	x1, d1 := s.Run(bodies(names), expand(sw), setOn)
 	x2, d2 := s.Run(bodies(names), expand(sw), setOn)
 	if d1 != "" || d2 != "" {
@@ -143,6 +144,11 @@ func mainSched() {
 	secp256k1.VerifRTSetPoint(func() {
 		if mc.SchedHook != nil {
 			mc.SchedHook()
+		}
+	})
+	secp256k1.VerifRTSetBlocked(func() {
+		if mc.SchedBlockedHook != nil {
+			mc.SchedBlockedHook()
 		}
 	})
 	var shard0 int
